@@ -454,6 +454,10 @@ func TestC07(t *testing.T) {
 			}
 			env.deliverAll()
 			for k, n := 0, c.Int("replay.between", 0, 4); k < n; k++ {
+				// Signing timestamps have millisecond resolution and a copy that carries
+				// the newest timestamp is tolerated for hop pings: keep distinct
+				// messages of X at least a millisecond apart, as real traffic is.
+				time.Sleep(2 * time.Millisecond)
 				// Arbitrary genuine traffic of X in between (each kind changes what it
 				// may change; none of it makes the old ping fresh again).
 				switch core.OneOf(c, "replay.between.kind", "pong", "pong", "error-no-keys", "going-down", "announce", "error-generic", "victim-key-setup") {
@@ -477,6 +481,9 @@ func TestC07(t *testing.T) {
 			}
 		}
 
+		if replay && between > 0 {
+			time.Sleep(2 * time.Millisecond)
+		}
 		before := snapshotNode(V, env.all)
 		qBefore := len(ms.vn.Queue)
 		res := ms.vn.Inject(V, link, data)
